@@ -74,7 +74,7 @@ func coldStatCase(c Conf, u []hs.Blob, n int) (class, detail string, err error) 
 		select {
 		case r = <-done:
 			finished = true
-		case <-time.After(500 * time.Millisecond):
+		case <-time.After(250 * time.Millisecond):
 			// Not time-based: the verdict "deadlock" needs (a) no request at all has reached the server and
 			// (b) a new goroutine sits in Client.doDiscovery -> doReqGated -> Gate.Start, i.e. discovery waits
 			// for an HTTP slot while every slot is held by a StatBlobs worker waiting for discovery;
@@ -85,7 +85,7 @@ func coldStatCase(c Conf, u []hs.Blob, n int) (class, detail string, err error) 
 				}
 				continue
 			}
-			if waited > 1200 {
+			if waited > 2400 {
 				return "timeout", fmt.Sprintf("client.StatBlobs(%d refs) did not return within 600s (%d requests served)", n, atomic.LoadInt64(&s.Served)-before), nil
 			}
 		}
